@@ -226,6 +226,117 @@ def integer_columns(chk: core.Check):
             return
 
 
+ENV_CHILD = r"""
+import sys, json
+sys.path.insert(0, sys.argv[1])
+import numpy as np
+from checks import helix_common as hc, c06
+rng = np.random.default_rng(606)
+h = hc.gen(rng, 300, far=False)
+reg = hc.regular_mask(h)
+out, obj, recs = c06.impl_all(h, None, 40)
+res = c06.residuals(h, out)
+worst = {}
+for name in ("centre", "trajectory", "closest_point"):
+    r = np.where(reg, res[name], 0.0)
+    i = int(np.argmax(r)); worst[name] = [float(r[i]), i]
+sc = c06.scale_of(h)
+d_obj = 0.0; i_obj = 0
+for i in range(len(obj)):
+    if reg[i]:
+        d = max(abs(obj[i][0] - out["dr"][i]), abs(obj[i][2] - out["dz"][i]) / (1 + abs(h["tanl"][i]))) / sc[i]
+        if d > d_obj: d_obj, i_obj = float(d), i
+i = worst["trajectory"][1]
+print(json.dumps({"worst": worst, "obj_vs_arr": [d_obj, i_obj],
+                  "track": {k: (h[k][i].tolist() if h[k].ndim > 1 else float(h[k][i])) for k in h},
+                  "obj_track": {k: (h[k][i_obj].tolist() if h[k].ndim > 1 else float(h[k][i_obj])) for k in h}}))
+"""
+
+
+def scan_env_reads():
+    """environment variables the package source reads (`os.environ.get / [] / os.getenv`), with the default where it is a literal"""
+    import ast
+    found = {}
+    for path in sorted((core.REPO / "src" / "pybes3").rglob("*.py")):
+        try:
+            tree = ast.parse(path.read_text())
+        except SyntaxError:
+            continue
+        for n in ast.walk(tree):
+            var = default = None
+            if isinstance(n, ast.Call) and ast.unparse(n.func) in ("os.getenv", "os.environ.get", "environ.get", "getenv") and n.args and isinstance(n.args[0], ast.Constant) and isinstance(n.args[0].value, str):
+                var = n.args[0].value
+                if len(n.args) > 1 and isinstance(n.args[1], ast.Constant):
+                    default = n.args[1].value
+            elif isinstance(n, ast.Subscript) and ast.unparse(n.value) in ("os.environ", "environ") and isinstance(n.slice, ast.Constant) and isinstance(n.slice.value, str):
+                var = n.slice.value
+            if var is not None:
+                found.setdefault(var, (default, str(path.relative_to(core.REPO))))
+    return found
+
+
+def perturbations(default):
+    """values for an environment variable that differ from its default in the way its type suggests"""
+    d = "" if default is None else str(default)
+    try:
+        f = float(d)
+        vals = [repr(f * 0.9) if f != 0 else "0.5", "2", "0"]
+        if d in ("0", "1"):
+            vals = ["1" if d == "0" else "0"] + vals
+        return vals[:3]
+    except ValueError:
+        pass
+    if d.lower() in ("true", "false", "yes", "no", "on", "off"):
+        return [{"true": "false", "false": "true", "yes": "no", "no": "yes", "on": "off", "off": "on"}[d.lower()]]
+    return ["1", "0.9"]
+
+
+def env_histories(chk: core.Check):
+    """a job run EARLIER with an environment variable the package reads set to another value, then the same computation in a job with the
+    default environment sharing the numba cache directory (private to this check): the pivot change must still preserve the trajectory in
+    array form and agree with the object form - compiled kernels must not carry the earlier job's configuration"""
+    import json
+    import os
+    import shutil
+    import subprocess
+    import tempfile
+    envs = scan_env_reads()
+    chk.coverage["environment_variables_read_by_the_package"] = {k: {"default": v[0], "file": v[1]} for k, v in envs.items()}
+
+    def job(env_extra, cache):
+        env = dict(os.environ, NUMBA_CACHE_DIR=cache)
+        for k in envs:
+            env.pop(k, None)
+        env.update(env_extra)
+        p = subprocess.run([core.PY, "-c", ENV_CHILD, str(core.VERIF / "tools")], capture_output=True, text=True, timeout=900, env=env)
+        lines = [l for l in p.stdout.splitlines() if l.startswith("{")]
+        return (json.loads(lines[-1]) if lines else None), p.stderr[-400:]
+
+    for var, (default, where) in envs.items():
+        for val in perturbations(default)[:2]:
+            cache = tempfile.mkdtemp(prefix="c06env-")
+            try:
+                first, err1 = job({var: val}, cache)
+                later, err2 = job({}, cache)
+                chk.count(2, key=f"env-{var}={val}")
+                chk.hist("env_history", var)
+                if later is None:
+                    chk.failing_input(f"pivot change in a job with the default environment after an earlier job ran with {var}={val}", {"earlier_job_env": {var: val}, "shared": "numba cache directory"}, err2, "results", "the job runs")
+                    return
+                for name in ("trajectory", "centre", "closest_point"):
+                    if later["worst"][name][0] > 1e-9:
+                        chk.failing_input(f"change_pivot (array form): {name} residual in a job with the default environment, after an earlier job that shared the numba cache directory ran with {var}={val} ({where})",
+                                          dict(later["track"], earlier_job_env={var: val}), later["worst"][name][0], "<= 1e-9 (relative to track scale)",
+                                          "BOSS trajectory with signed rho = -alpha/kappa: same circle, same sense, same z-angle relation - whatever an earlier process was configured with")
+                        return
+                if later["obj_vs_arr"][0] > 1e-9:
+                    chk.failing_input(f"HelixObject.change_pivot vs array form in a job with the default environment, after an earlier job that shared the numba cache directory ran with {var}={val} ({where})",
+                                      dict(later["obj_track"], earlier_job_env={var: val}), later["obj_vs_arr"][0], "<= 1e-9", "object and array forms agree")
+                    return
+            finally:
+                shutil.rmtree(cache, ignore_errors=True)
+
+
 def main(chk: core.Check) -> int:
     thorough = chk.tier == "thorough"
     n, n_obj = (40000, 3000) if thorough else (3000, 300)
@@ -248,6 +359,8 @@ def main(chk: core.Check) -> int:
             # pivots handed over as Vector3D arrays that are not stored as (x, y, z), views of deeply nested arrays (shared with C07)
             from checks import c07
             c07.deep_views_and_pivot_kinds(chk)
+        if not chk.failing:
+            env_histories(chk)
     except core.DriverError as ex:
         chk.obligation_broken("correspondence", "helix driver", str(ex))
     return chk.finish(None)
